@@ -171,15 +171,38 @@ def run_scripts(ctx, tag, scripts):
 
 
 # ------------------------------------------------------------------ classifying
-def classify(lab, cls, obs, want_states, init):
-    """Narrow keys of the known findings.  want_states: the admissible destinations."""
+def classify(hist, cls, obs, want_states, init):
+    """Narrow keys of the known findings.  hist: the labels since the fresh deployment, the offending one last;
+    want_states: the admissible destinations."""
     obs = obs or {}
     eff = obs.get("effbad") or []
     rep_ok = any(canon(obs.get("rep")) == canon(w) and canon(obs.get("file")) == canon(w) for w in want_states)
-    if (lab["op"] == "ss_enable" and cls == "ok" and rep_ok and eff and not obs.get("err")
+    # The deprecated enable call was the last thing that touched safe search in this process (no restart, no settings call since),
+    # everything is reported and written as it should be, and the only contradiction is that nothing is rewritten.  (It shows at
+    # the call itself, or later when DNS probing becomes possible again.)
+    touching = [l for l in hist if l["op"] in ("ss_enable", "restart", "crash", "crashduring") or (l["op"] == "set" and l.get("c") == "ss")]
+    if (touching and touching[-1]["op"] == "ss_enable" and cls in ("ok", "rej") and rep_ok and eff and not obs.get("err")
             and all(e.startswith('ss="') and "saw bing=false google=false" in e for e in eff)):
         return "safesearch-enable-not-in-effect-until-restart"
+    # G07's finding seen from here: a list added after a restart within the same second got the id of a list that was already
+    # there (two lists with one id in the file, or the start-up warning about it), so one list file holds the other's rules.
+    if (rep_ok and eff and not obs.get("err") and "duplicate filter id" in (obs.get("notes") or [])
+            and all(e.startswith("lists=") for e in eff)):
+        return "list-id-reused-after-restart-within-the-second"
     return None
+
+
+def replayable(labs_with_effect):
+    """A crash in mid-request is replayed as what it turned out to be: the change followed by a crash, or only the crash."""
+    out = []
+    for lab, applied in labs_with_effect:
+        if lab["op"] == "crashduring" and applied is not None:
+            if applied:
+                out.append({"op": lab["x"], "x": "", "c": lab["c"], "v": lab["v"], "w": lab["w"]})
+            out.append({"op": "crash", "x": "", "c": "", "v": "", "w": ""})
+        else:
+            out.append(lab)
+    return out
 
 
 def signature(lab, cls, obs, init):
@@ -210,7 +233,7 @@ def direction_a(ctx, graph, reports):
         v = vecs[b["v"]]
         st = b["step"]
         wants = [graph["states"][o["dst"]] for o in v["outs"]]
-        key = classify(v["lab"], st.get("cls"), st.get("obs"), wants, init)
+        key = classify(b["hist"], st.get("cls"), st.get("obs"), wants, init)
         sig = key or signature(v["lab"], st.get("cls"), st.get("obs"), init)
         groups.setdefault((key, sig), []).append(b)
     reps = []
@@ -235,7 +258,7 @@ def direction_a(ctx, graph, reports):
             st2 = last["step"]
             wants = [graph["states"][o["dst"]] for o in v["outs"]]
             again = match_step(graph, v, st2) is None
-            key2 = classify(v["lab"], st2.get("cls"), st2.get("obs"), wants, init)
+            key2 = classify(b["hist"], st2.get("cls"), st2.get("obs"), wants, init)
             if not again or key2 != key:
                 flaky += len(groups[(key, sig)])
                 continue
@@ -253,11 +276,17 @@ def direction_a(ctx, graph, reports):
             reports.append((key, rec, what, len(groups[(key, sig)])))
     covered = {r["v"] for r in oks}
     targets = [v for v in vecs if v["target"]]
+    # States the implementation never enters (it refuses a request the documentation is silent about, so the state "accepted" does not
+    # occur): their vectors cannot be executed.
+    visited = {graph["init"]} | {r["dst"] for r in oks}
+    unreachable = [v["id"] for v in vecs if v["src"] not in visited]
+    tried = covered | {b["v"] for b in bads}
     return {
         "vectors": len(vecs), "vectors_selected": len(targets), "vectors_selected_covered": sum(1 for v in targets if v["id"] in covered),
         "vectors_covered": len(covered), "steps": len(oks) + len(bads), "tours": 1 + sum(1 for r in oks if r.get("n") == 1),
         "disagreeing_steps": len(bads), "disagreement_groups": len(groups), "reproduced_groups": reproduced, "flaky_steps": flaky,
-        "remaining": end[0]["remaining"], "by_class": {c: sum(1 for i in covered if vec_class(vecs[i]) == c) for c in sorted({vec_class(v) for v in vecs})},
+        "remaining": end[0]["remaining"], "vectors_of_states_never_entered": len(unreachable),
+        "all_enterable_tried": all(v["id"] in tried or v["src"] not in visited for v in vecs), "by_class": {c: sum(1 for i in covered if vec_class(vecs[i]) == c) for c in sorted({vec_class(v) for v in vecs})},
         "covered_ids": covered,
     }
 
@@ -293,11 +322,16 @@ def direction_b(ctx, graph, reports):
         ln = lines[b["i"] - 1]
         if b["why"] in ("rig", "noout"):
             raise vlib.Inconclusive("trace line %d (%s): %s" % (b["i"], labstr(ln.get("lab", {"op": "?"})), b["why"]))
-        hist = [l for l in lines[:b["i"]] if l["h"] == ln["h"] and l.get("ev") == "step"]
-        obs = {"rep": ln.get("rep"), "file": ln.get("file"), "effbad": ln.get("effbad"), "err": ln.get("err")}
+        hl = [l for l in lines[:b["i"]] if l["h"] == ln["h"] and l.get("ev") in ("step", "reset")]
+        pairs = []
+        for prev, cur in zip(hl, hl[1:]):
+            last = cur is hl[-1]
+            pairs.append((cur["lab"], None if last else canon(cur.get("rep")) != canon(prev.get("rep"))))
+        hist = replayable(pairs)
+        obs = {"rep": ln.get("rep"), "file": ln.get("file"), "effbad": ln.get("effbad"), "err": ln.get("err"), "notes": ln.get("notes")}
         # the classifier wants the admissible destinations: for the known keys "reported = file" is what matters
         wants = [ln.get("rep")] if canon(ln.get("rep")) == canon(ln.get("file")) else []
-        key = classify(ln["lab"], ln.get("cls"), obs, wants, init)
+        key = classify(hist, ln.get("cls"), obs, wants, init)
         sig = key or signature(ln["lab"], ln.get("cls"), obs, init)
         groups.setdefault((key, sig), []).append((b, hist))
     reps = []
@@ -312,7 +346,7 @@ def direction_b(ctx, graph, reports):
     reproduced = 0
     if reps:
         ctx.log("direction B: %d rejected lines in %d groups; replaying %d histories from fresh deployments" % (len(verdict["bad"]), len(groups), len(reps)))
-        by = run_scripts(ctx, "again_b", [[l["lab"] for l in hist] for _, _, (b, hist) in reps])
+        by = run_scripts(ctx, "again_b", [hist for _, _, (b, hist) in reps])
         rows, last_of = [], {}
         for i, (key, sig, (b, hist)) in enumerate(reps):
             d = by.get(i, {})
@@ -340,10 +374,10 @@ def direction_b(ctx, graph, reports):
             st = last_of[i][1]
             ob = st.get("obs") or {}
             wants = [ob.get("rep")] if canon(ob.get("rep")) == canon(ob.get("file")) else []
-            if classify(st["lab"], st.get("cls"), ob, wants, init) != key:
+            if classify(hist, st.get("cls"), ob, wants, init) != key:
                 continue
             reproduced += 1
-            rec = {"direction": "B", "label": st["lab"], "history": [l["lab"] for l in hist], "seed": ctx.seed,
+            rec = {"direction": "B", "label": st["lab"], "history": hist, "seed": ctx.seed,
                    "observed": {"cls": st.get("cls"), "code": st.get("code"), "body": st.get("body"), "reported": diff(ob.get("rep"), init),
                                 "file": diff(ob.get("file"), init), "effects_contradicting_report": ob.get("effbad"), "err": ob.get("err")},
                    "same_kind": len(groups[(key, sig)]), "settings_shown_as": "difference from the initial deployment"}
@@ -415,7 +449,7 @@ def run(ctx):
         "direction_a": a, "direction_b": b, "vacuity_guards": guard, "negative_configurations": {n: negs[n]["violated"] for n in NEG},
         "states": gen["distinct"], "transitions": gen["generated"],
         "truncated_by_known_finding": truncated,
-        "exhaustive": (not ctx.quick) and a["vectors_covered"] == a["vectors"],
+        "exhaustive": (not ctx.quick) and a["all_enterable_tried"],
         "samples": samples,
     }
     return ctx.finish("model_checking", cov, assumptions=[
